@@ -22,9 +22,9 @@ THEOREMS = ["valOf_bv", "bv_valOf", "add_correct", "sub_correct", "mul_correct",
             "exact_doubles", "exact_doubles_plain_mul_fails",
             "mk64_canon", "mk64_value", "add64_correct", "sub64_correct", "neg64_correct", "valOf_toBV", "flatten64_exact",
             "mul64_correct", "mul64_scheme", "shift64_correct", "div64_correct", "div64_norm_terminates",
-            "specShift_clamp"]
+            "specShift_clamp", "f32_nested", "f32_nested_value", "f32_outer_only_differs"]
 
-ENV_THEOREMS = ["optable_known", "optable_member", "mul_patterns", "small_const_mul_inexact"]
+ENV_THEOREMS = ["optable_known", "optable_member", "mul_patterns", "small_const_mul_inexact", "f32_records_fround"]
 
 SMALL = {"int8": (8, True), "int16": (16, True), "int32": (32, True), "int": (32, True),
          "uint8": (8, False), "uint16": (16, False), "uint32": (32, False), "uint": (32, False), "uintptr": (32, False)}
@@ -596,6 +596,38 @@ OP_OF_TOKEN = {"token.ADD": ["add"], "token.SUB": ["sub"], "token.MUL": ["mul"],
 ALL_OPS = [o for o, _ in BINOPS + CMPOPS + SHOPS + UNOPS] + ["conv"]
 
 
+def is_float_record(e):
+    """a table record that can only concern float32/float64/complex operands: its guard path selects a float kind (or excludes the
+    integers), or its text is about `$fround` / a float helper"""
+    sec, cas, guard, text = e
+    blob = sec + " " + guard + " " + text
+    if sec in ("bincomplex",) or (sec == "conv" and cas in ("isFloat(t)", "isComplex(t)")):
+        return True
+    if "Float32" in blob or "Float64" in blob or "$fround" in blob or "float32" in blob.lower() or "isFloat(" in blob:
+        return True
+    if "!(isInteger(basic))" in guard:
+        return True
+    return False
+
+
+WIDENED_CASE_CAP = 3000000     # ~5 minutes of program runs on an idle machine (measured ~15k cases/s in the thorough tier)
+
+
+def cap_groups(groups, rng, cap=WIDENED_CASE_CAP):
+    """bound the widened integer search: keep the constant-grid units first, then a random selection of the rest"""
+    units = [(k, u) for k, us in groups.items() for u in us]
+    first = [x for x in units if "constgrid" in x[1].what]
+    rest = [x for x in units if "constgrid" not in x[1].what]
+    rng.shuffle(rest)
+    out, total = {}, 0
+    for k, u in first + rest:
+        if total + len(u.cases) > cap and total > 0:
+            continue
+        out.setdefault(k, []).append(u)
+        total += len(u.cases)
+    return out, total
+
+
 def affected_of(changed):
     """(types, operator names) touched by the changed table entries [(sec, case, guard, text)]"""
     types, ops = set(), set()
@@ -979,6 +1011,77 @@ def float_build(part):
     return "\n".join(src) + "\n", labels
 
 
+# nested float32 / complex64 expressions: the intermediate of `(a op b) op c` must be rounded to single precision too
+F32_BASE = [16777216.0, 16777215.0, 16777218.0, 1.0, 3.0, 0.5, -1.0, 8388609.0, 12345679.0, -16777215.0, 1e-45, 1.1754944e-38,
+            3.4028235e38, 1.0000001, 0.1, 1 / 3.0, 33554432.0, 5e-39, 1e38, -2.5, 7.0, 1e-30, 16777217.0 * 3, 0.33333334]
+
+F32_FORMS = [("lassoc-add", "(a + b) + c"), ("rassoc-add", "a + (b + c)"), ("add-sub-cancel", "(a + b) - a"), ("mul-add", "a*b + c"),
+             ("mul-of-sum", "(a + b) * c"), ("sum-times", "a * (b - c)"), ("div-mul", "(a / b) * c"), ("diff-div", "(a - b) / c"),
+             ("depth3-mixed", "(a + b*c) - a"), ("depth3-chain", "((a + b) + c) + b"), ("noparen-chain", "a + b + c"),
+             ("mul-chain", "a * b * c"), ("compound-add", None), ("compound-mul", None), ("named-type", None)]
+
+
+def f32(f):
+    return struct.unpack("<f", struct.pack("<f", f))[0]
+
+
+def f32lit(f):
+    return "math.Float32frombits(0x%08x)" % struct.unpack("<I", struct.pack("<f", f))[0]
+
+
+def float_nested_build(vals, forms, complex64=False):
+    """-> (source, labels): every triple (a, b, c) of vals through every form; one token per (form, triple)"""
+    labels = []
+    src = ["package main", "", 'import "math"', "", "type myf32 float32", "",
+           "func fb32(f float32) string {\n\tif f != f {\n\t\treturn \"NaN\"\n\t}\n\treturn s_uint32(math.Float32bits(f))\n}",
+           "var V = [...]float32{%s}" % ", ".join(f32lit(v) for v in vals)]
+    fnames = []
+    if not complex64:
+        for name, expr in forms:
+            fn = "f_" + name.replace("-", "_")
+            if name == "compound-add":
+                body = "t := a\n\tt += b + c\n\treturn fb32(t)"
+            elif name == "compound-mul":
+                body = "t := a\n\tt *= b - c\n\treturn fb32(t)"
+            elif name == "named-type":
+                body = "x, y, z := myf32(a), myf32(b), myf32(c)\n\treturn fb32(float32((x + y) * z - x))"
+            else:
+                body = "return fb32(%s)" % expr
+            src.append("func %s(a, b, c float32) string {\n\t%s\n}" % (fn, body))
+            fnames.append((name, fn))
+    else:
+        for name, expr in [("c64-mul-mul", "(p * q) * r"), ("c64-add-add", "(p + q) + r"), ("c64-sum-mul", "(p + q) * r"), ("c64-noparen", "p * q + r")]:
+            fn = "f_" + name.replace("-", "_")
+            src.append("func %s(a, b, c float32) string {\n\tp, q, r := complex(a, b), complex(b, c), complex(c, a)\n\tz := %s\n"
+                       "\treturn fb32(real(z)) + \",\" + fb32(imag(z))\n}" % (fn, expr))
+            fnames.append((name, fn))
+    src.append("func main() {\n\tfor i := 0; i < len(V); i++ {\n\t\tfor j := 0; j < len(V); j++ {\n\t\t\tl := \"\"\n\t\t\tfor k := 0; k < len(V); k++ {")
+    for _, fn in fnames:
+        src.append("\t\t\t\tl += %s(V[i], V[j], V[k]) + \" \"" % fn)
+    src.append("\t\t\t}\n\t\t\tprintln(l)\n\t\t}\n\t}\n}")
+    for a in vals:
+        for b in vals:
+            for c in vals:
+                for name, _ in fnames:
+                    labels.append("%s nested %s %r %r %r" % ("complex64" if complex64 else "float32", name, f32(a), f32(b), f32(c)))
+    return "\n".join(src) + "\n", labels
+
+
+def float_nested_jobs(rng, full):
+    """programs of the nested float32 / complex64 family (full = the widened search after a broken float entry of the operator table)"""
+    nv = 20 if full else 11
+    base = F32_BASE[:9] + rng.sample(F32_BASE[9:], (nv - 9) - 2)
+    for _ in range(2):   # 24-bit significands (odd), random exponent: sums and products of these need more than 24 bits
+        base.append(f32((rng.getrandbits(23) | (1 << 23) | 1) * 2.0 ** rng.randint(-30, 30) * rng.choice([1, -1])))
+    out = []
+    per = max(1, 180000 // (len(base) ** 3 * 11))        # forms per program under the stdout clip
+    for i in range(0, len(F32_FORMS), per):
+        out.append(("f32nest%d" % (i // per),) + float_nested_build(base, F32_FORMS[i:i + per]))
+    cbase = base[:8] if not full else base[:11]
+    out.append(("c64nest",) + float_nested_build(cbase, None, complex64=True))
+    return out
+
+
 def _nums(label):
     out = []
     for x in label.replace("(", ",").replace(")", ",").replace(" ", ",").split(","):
@@ -1000,7 +1103,7 @@ def float_signature(label, impl, spec):
     return None
 
 
-def run_float_tie(chk):
+def run_float_tie(chk, full=False):
     jobs, labs = [], []
     for part in ("float", "complex"):
         src, labels = float_build(part)
@@ -1008,7 +1111,11 @@ def run_float_tie(chk):
         jobs.append({"id": "c06_" + part, "files": {"main.go": src, "helpers_js.go": HELPERS_JS, "helpers_native.go": HELPERS_NATIVE},
                      "variants": ["plain"], "native": True, "timeout": 120})
         labs.append(labels)
-    res = run_jobs(jobs, 2)
+    for name, src, labels in float_nested_jobs(chk.rng, full):
+        jobs.append({"id": "c06_" + name, "files": {"main.go": src, "helpers_js.go": HELPERS_JS, "helpers_native.go": HELPERS_NATIVE},
+                     "variants": ["plain"], "native": True, "timeout": 120})
+        labs.append(labels)
+    res = run_jobs(jobs, 12)
     n = 0
     for job, labels, r in zip(jobs, labs, res):
         js = progs.observe_js(r["runs"]["plain"])
@@ -1108,6 +1215,9 @@ def run(tier, seed):
                 "impl (GopherJS) vs Lean scheme model vs Lean BitVec spec, native Go validates the spec for sized types; the constant shape "
                 "puts the constant on either side and draws it from every 2^k-1, 2^k+1 (k = 1..width), odd values inside every (2^k, 2^(k+1)), "
                 "their negatives, MIN/MAX, against run-time operands at MIN/MAX, 2^(w-1)+-1 and random odd full-width values; "
+                "(C) float32/float64/complex programs vs native Go, bit-exact, incl. NESTED float32/complex64 expressions of depth 2-3 "
+                "((a op b) op c, a op (b op c), compound assignment, named float32) on all triples of values whose intermediates are not "
+                "float32-representable (2^24 neighbourhood, 24-bit significands, cancellation, overflow/underflow, subnormals); "
                 "(X) the (operator case, guard path) -> emitted expression table of translateExpr/translateConversion/fixNumber is re-extracted "
                 "with go/ast (gvh_c06) and must equal GV.Model.NumOpTable (GV.Props.C06Env.optable_known); when it does not, the widened search "
                 "(all 8-bit pairs, full boundary grid, full constant grid for the affected operators) looks for a failing input")
@@ -1136,15 +1246,22 @@ def run(tier, seed):
     chk.extra["helper_wall_s"] = round(time.time() - t0, 1)
     # (B) programs
     groups = gen_units(tier, chk.rng)
-    if changed:
-        # the operator table obligation is broken: search for a failing input with the widened generator
-        types, ops = affected_of(changed)
-        chk.notes.append("operator table changed -> widened search over types %s, operators %s" % (sorted(types), sorted(ops)))
-        for k, us in gen_units_widened(chk.rng, types, ops).items():
+    float_changed = [e for e in changed if is_float_record(e)]
+    int_changed = [e for e in changed if not is_float_record(e)]
+    if int_changed:
+        # the operator table obligation is broken on an integer entry: search for a failing input with the widened generator
+        types, ops = affected_of(int_changed)
+        wide, total = cap_groups(gen_units_widened(chk.rng, types, ops), chk.rng)
+        chk.notes.append("operator table changed -> widened integer search over types %s, operators %s (%d cases, capped at %d)" % (
+            sorted(types), sorted(ops), total, WIDENED_CASE_CAP))
+        for k, us in wide.items():
             groups.setdefault(k, []).extend(us)
-        chk.extra["widened_search"] = {"types": sorted(types), "operators": sorted(ops)}
+        chk.extra["widened_search"] = {"types": sorted(types), "operators": sorted(ops), "cases": total}
+    if float_changed:
+        chk.notes.append("operator table changed on %d float record(s) -> the float/complex program family runs its full nested grid" % len(float_changed))
+        chk.extra["widened_float_search"] = len(float_changed)
     run_program_tie(chk, tier, groups)
-    run_float_tie(chk)
+    run_float_tie(chk, full=bool(float_changed) or tier == "thorough")
     run_chain_tie(chk)
     chk.extra["exhaustive"] = False
     chk.extra["exhaustive_subspace"] = ("all operand pairs of int8/uint8 for every binary operator and comparison, all three shapes"
